@@ -109,11 +109,20 @@ unsigned int verif_nonce_calls;
 size_t g_nk;
 unsigned int g_nf_impl_n; unsigned int g_nf_counter; const unsigned char *g_nf_msg32, *g_nf_key32, *g_nf_algo16, *g_nf_out; const void *g_nf_data; const secp256k1_hash_ctx *g_nf_hctx;
 unsigned char g_nf_data_byte, g_nf_out_byte;
+#ifdef NONCE_FN_EXPECT
+const secp256k1_hash_ctx *g_nfx_hctx; const unsigned char *g_nfx_msg32, *g_nfx_key32; const void *g_nfx_data;
+#endif
 unsigned int g_st_n; int g_st_ret;   /* user-callback stub (harness/C01/nonce_stub.c): calls, last return value */
 #define NONCE_FN_GHOST verif_nonce_calls, g_nf_impl_n, g_nf_counter, g_nf_msg32, g_nf_key32, g_nf_algo16, g_nf_out, g_nf_data, g_nf_hctx, g_nf_data_byte, g_nf_out_byte, g_st_n, g_st_ret
 static int nonce_function_rfc6979_impl(const secp256k1_hash_ctx *hash_ctx, unsigned char *nonce32, const unsigned char *msg32, const unsigned char *key32, const unsigned char *algo16, void *data, unsigned int counter)
 __CPROVER_requires(hash_ctx != NULL && __CPROVER_w_ok(nonce32, 32) && __CPROVER_r_ok(msg32, 32) && __CPROVER_r_ok(key32, 32))
 __CPROVER_requires((algo16 == NULL || __CPROVER_r_ok(algo16, 16)) && (data == NULL || __CPROVER_r_ok(data, 32)))
+#ifdef NONCE_FN_EXPECT
+/* Call shape expected by the harness, stated as a PRECONDITION (an obligation at every call site, not an assumption): used where the
+ * calls sit in a loop whose loop contract forgets ghost logs at the loop exit (secp256k1_ecdsa_anti_exfil_signer_commit).
+ * g_nfx_* are set by the harness and never assigned by code or contracts. */
+__CPROVER_requires(hash_ctx == g_nfx_hctx && msg32 == g_nfx_msg32 && key32 == g_nfx_key32 && algo16 == NULL && data == g_nfx_data && counter == verif_nonce_calls)
+#endif
 __CPROVER_assigns(__CPROVER_object_upto(nonce32, 32), verif_nonce_calls, g_nf_impl_n, g_nf_counter, g_nf_msg32, g_nf_key32, g_nf_algo16, g_nf_out, g_nf_data, g_nf_hctx, g_nf_data_byte, g_nf_out_byte)
 __CPROVER_ensures(__CPROVER_return_value == 1)
 __CPROVER_ensures(verif_nonce_calls == __CPROVER_old(verif_nonce_calls) + 1 && g_nf_impl_n == __CPROVER_old(g_nf_impl_n) + 1)
